@@ -45,6 +45,8 @@ def lookup_rules(repo, res, RULE="G3-LOOKUP"):
 
 
 def run(repo, res, tier):
+    from . import c06ev as _c06ev
+
     res.rule("G1-SHAPE-AGREE", "containment predicate, exported geometry and drawing of each shape use the same parameters", 14)
     res.rule("G2-INDEX", "spatial index mirrors lanelet polygons and is rebuilt on every construction route", 12)
     res.rule("G3-LOOKUP", "lookups filter and map tree results consistently", 2)
@@ -145,23 +147,8 @@ def run(repo, res, tier):
     # ---------------------------------------------------------------- G1 polygon
     poly = repo.cls(SH, "Polygon")
     init = poly.methods["__init__"]
-    built = [n for n in walk_no_nested(init) if isinstance(n, (ast.Assign, ast.AnnAssign)) and norm(n.targets[0] if isinstance(n, ast.Assign) else n.target) == "self._shapely_polygon"]
-    ok = len(built) == 1 and isinstance(built[0].value, ast.Call) and norm(built[0].value.func).endswith("geometry.Polygon") and [C(a, init) for a in built[0].value.args] in (["vertices"], ["self.vertices"])
-    res.check("G1-SHAPE-AGREE", "Polygon geometry = Polygon(vertices)", ok, smod, init, "Polygon.__init__ geometry", "the exported polygon is not built from the vertex ring", qualname="Polygon.__init__")
-    for nm, fnm in (("_min", "np.min"), ("_max", "np.max")):
-        st = [n for n in walk_no_nested(init) if isinstance(n, (ast.Assign, ast.AnnAssign)) and norm(n.targets[0] if isinstance(n, ast.Assign) else n.target) == "self." + nm]
-        ok = len(st) == 1 and C(st[0].value, init) in ("%s(vertices, axis=0)" % fnm, "%s(self.vertices, axis=0)" % fnm, "%s(vertices, 0)" % fnm)
-        res.check("G1-SHAPE-AGREE", "Polygon.%s = %s(vertices, axis=0)" % (nm, fnm), ok, smod, init, "Polygon.%s" % nm, "the bounding box used to pre-filter contains_point is not the bounding box of the vertices: points inside are rejected", qualname="Polygon.__init__")
-    so = repo.method(SH, "Polygon", "shapely_object")
-    rets = [n for n in walk_no_nested(so) if isinstance(n, ast.Return)]
-    res.check("G1-SHAPE-AGREE", "Polygon.shapely_object returns that polygon", len(rets) == 1 and C(rets[0].value, so) == "self.shapely_polygon", smod, so, "Polygon.shapely_object", "shapely_object does not return the polygon of the vertices", qualname="Polygon.shapely_object")
-    cp = poly.methods["contains_point"]
-    pn = cp.args.args[1].arg
-    dnf = truth_dnf(smod, cp, ReachingDefs(cp), [pn], helper_table(poly, smod, cp, repo))
-    geo = {"self.shapely_polygon.intersects(shapely.geometry.Point(%s))" % pn, "self.shapely_object.intersects(shapely.geometry.Point(%s))" % pn, "self.shapely_polygon.covers(shapely.geometry.Point(%s))" % pn}
-    bbox = {"all(np.less_equal(self.min, %s))" % pn, "all(np.less_equal(%s, self.max))" % pn, "all(np.greater_equal(%s, self.min))" % pn, "all(np.greater_equal(self.max, %s))" % pn, "np.all(self.min <= %s)" % pn, "np.all(%s <= self.max)" % pn, "np.less_equal(self.min, %s).all()" % pn, "np.less_equal(%s, self.max).all()" % pn}
-    ok = len(dnf) == 1 and all(p for _t, p in dnf[0]) and sum(1 for t, _p in dnf[0] if t in geo) == 1 and all(t in geo or t in bbox for t, _p in dnf[0])
-    res.check("G1-SHAPE-AGREE", "Polygon.contains_point = bbox(closed) and geometry.intersects(point)", ok, smod, cp, "Polygon.contains_point: %s" % dnf, "containment is not decided on the exported geometry with a closed bounding-box pre-filter", qualname="Polygon.contains_point")
+    # decided by evaluation (c06ev.polygon_rules): exported geometry and the predicate, case by case
+    _c06ev.polygon_rules(repo, res, "G1-SHAPE-AGREE")
     sg = repo.cls(SH, "ShapeGroup").methods["contains_point"]
     ex = exists_form(smod, sg, ReachingDefs(sg), [sg.args.args[1].arg], None)
     ok = ex is not None and ex[0] == "self.shapes" and norm(ex[2]) == "%s.contains_point(%s)" % (ex[1], sg.args.args[1].arg)
@@ -214,7 +201,7 @@ def run(repo, res, tier):
             _o, p = repo.find_prop(sc, "shapely_object")
             res.check("G4-PROTOCOL", "%s (admitted query shape) exports shapely_object" % sc.name, p is not None and "get" in p, lmod, fs, "find_lanelet_by_shape admits %s" % sc.name, "%s is accepted as query shape but has no shapely_object: the lookup raises AttributeError" % sc.name, qualname="LaneletNetwork.find_lanelet_by_shape")
     # get_obstacles, contains_points and map_obstacles_to_lanelets: decided by abstract evaluation (c06ev)
-    from . import c06ev as _c06ev
+
 
     _c06ev.get_obstacles_rule(repo, res)
     _c06ev.points_and_mapping_rules(repo, res)
